@@ -181,10 +181,15 @@ prop("C19", "exploration",
      "not panic and must equal the tree: every frame exactly once under its issuer (frame or Aspect execution), every Aspect "
      "execution with its own gasUsed/output/error; flat form: subtraces == emitted children, trace addresses unique, "
      "prefix-closed and in the order pre join points, calls, post join points, precompile calls pruned where they happened. "
-     "Each frame carries a unique gas value by which it is recognised. Non-trivial = >= 2 Aspects on one join point or a "
-     "call inside an Aspect.",
+     "Each frame carries a unique gas value by which it is recognised. Second stage (hybrid): scripted call trees run on the "
+     "real EVM with 0-3 real WASM Aspects (no-op / burning / trapping / reverting) per join point while the real callTracer / "
+     "flatCallTracer listens; the tree rebuilt from the recorded event stream (frames, Aspect executions with gas in / out, "
+     "error) is the oracle's input and must equal the decoded tracer result. Non-trivial = >= 2 Aspects on one join point or "
+     "a call inside an Aspect.",
      [{"test": "TestC19", "quick": {"checks": 30000, "shards": 2, "timeout": 600},
-       "thorough": {"checks": 300000, "shards": 16, "timeout": 3000}}])
+       "thorough": {"checks": 300000, "shards": 16, "timeout": 3000}},
+      {"test": "TestC19Hybrid", "quick": {"checks": 150, "shards": 4, "timeout": 900},
+       "thorough": {"checks": 1500, "shards": 16, "timeout": 3000}}])
 
 prop("C09", "exploration",
      "cases = one journal key per case, executed as real byte-code (registration opcode VSVJNAL/RSVJNAL, then VVJNAL/VRJNAL, "
